@@ -559,4 +559,10 @@ func rulesC01(c *Ctx) {
 	optionsC01(c)
 	// how operators group is part of the AST a text denotes
 	importRules(c, rulesC03, "C03.", "C01.grouping-", nil)
+	escapesC01(c)
+	// duration literals: a legal spelling (decimal digits, any unit of the table,
+	// a total that fits) must not be rejected or misread
+	importRules(c, rulesC08, "C08.", "C01.duration-", func(r string) bool {
+		return r == "C08.units" || r == "C08.overflow" || r == "C08.digits"
+	})
 }
